@@ -12,6 +12,24 @@ use std::sync::atomic::{AtomicU64, AtomicUsize, Ordering};
 use std::sync::Arc;
 use std::time::Instant;
 
+/// recorder of file operations (libc interposition + store hook), shared with the sequential engine
+#[path = "../../mc/src/crash.rs"]
+#[allow(dead_code)]
+mod crash;
+mod core {
+	pub fn fnv(data: &[u8], mut h: u64) -> u64 {
+		for &b in data {
+			h = (h ^ b as u64).wrapping_mul(0x100000001b3);
+		}
+		h
+	}
+}
+mod search {
+	pub fn workdir(tag: &str) -> std::path::PathBuf {
+		crate::scratch().join(tag)
+	}
+}
+
 #[no_mangle]
 pub unsafe extern "C" fn getrandom(buf: *mut libc::c_void, len: usize, _flags: u32) -> isize {
 	std::ptr::write_bytes(buf as *mut u8, 0x5a, len);
@@ -264,6 +282,97 @@ fn c15_backlog(n: usize, mask: u8) -> impl Fn() + Sync + Send + 'static {
 			assert_eq!(db.get(0, &key(i as u8)).unwrap(), Some(val(8, i as u8)), "commit {} lost", i);
 		}
 		drop(db);
+	}
+}
+
+static TRACES_SEEN: std::sync::Mutex<Option<std::collections::HashSet<u64>>> = std::sync::Mutex::new(None);
+static STAT_TRACES: AtomicU64 = AtomicU64::new(0);
+
+fn hex(b: &[u8]) -> String {
+	b.iter().map(|x| format!("{:02x}", x)).collect()
+}
+
+/// C12 under threads: `n` commits are logged and flushed (one log file each) without threads, then the real commit
+/// and cleanup workers (and optionally the others) enact and clean them concurrently. The file operations of the
+/// whole execution are recorded in the order they happen; every distinct operation sequence is written out and
+/// later judged by the sequential engine: each operation boundary of the threaded phase is a power-loss point
+/// (all n commits were synced before the threads started, so every recovery must show all of them).
+fn c12_backlog(name: &'static str, pb: usize, n: usize, mask: u8, wait: bool) -> impl Fn() + Sync + Send + 'static {
+	move || {
+		let it = ITER.fetch_add(1, Ordering::SeqCst);
+		let dir = fresh_dir();
+		crash::start(&dir);
+		parity_db::verif::set_external_workers(true);
+		let opts = options(&dir, vec![ColumnOptions::default()], true);
+		let db = Arc::new(Db::open_or_create(&opts).expect("open"));
+		let mut txs = vec![];
+		for i in 0..n {
+			let (k, v) = (key(i as u8), val(8 + 40 * (i % 2), i as u8));
+			txs.push(json!([[0, hex(&k), hex(&v)]]));
+			db.commit(vec![(0u8, k, Some(v))]).expect("commit");
+			db.process_commits().unwrap();
+			db.flush_logs().unwrap();
+		}
+		assert_eq!(db.verif_digest().read_queue, n, "harness: expected one flushed log file per commit");
+		let from = crash::ops_len();
+		let mut workers = vec![];
+		for (wi, w) in [Worker::Log, Worker::Flush, Worker::Commit, Worker::Cleanup].into_iter().enumerate() {
+			if mask & (1 << wi) == 0 {
+				continue
+			}
+			let db = db.clone();
+			workers.push(loom::thread::spawn(move || db.verif_run_worker(w)));
+		}
+		if wait {
+			// the client watches until everything is enacted and cleaned (needed with more than 2 files: the scaled
+			// limit of one dirty log file makes `drop` wait for a cleanup worker that has already gone when it has to
+			// enact two files itself - with the production limit of 4 that needs more unread files than the log
+			// queue limit admits)
+			let mut spins = 0;
+			loop {
+				let d = db.verif_digest();
+				if d.last_enacted as usize == n && d.cleanup_queue == 0 {
+					break
+				}
+				loom::thread::yield_now();
+				spins += 1;
+				assert!(spins < 300, "after 300 yields of an idle client: {} of {} records enacted, {} log files waiting for cleanup", d.last_enacted, n, d.cleanup_queue);
+			}
+		} else {
+			// one voluntary yield, then shutdown at whatever point the workers have reached (they finish the record
+			// or file they are working on; drop does the rest): fewer schedules than the watch loop, and the
+			// shutdown path of the workers is part of the trace
+			loom::thread::yield_now();
+		}
+		db.verif_shutdown();
+		for w in workers {
+			w.join().unwrap();
+		}
+		let db = Arc::try_unwrap(db).ok().expect("sole owner");
+		drop(db);
+		let ops = crash::stop();
+		// conformance of the recorder under loom: the shadow file system equals the real files
+		if it < 20 {
+			let mut sh = crash::Shadow::new();
+			for op in &ops {
+				crash::apply(&mut sh, op);
+			}
+			if let Err(e) = crash::compare_with_dir(&sh, &dir) {
+				panic!("harness: recorded operations do not reproduce the real files: {}", e);
+			}
+		}
+		let bytes = crash::ops_to_bytes(&ops);
+		let h = core::fnv(&bytes, 0xcbf29ce484222325);
+		let fresh = TRACES_SEEN.lock().unwrap().get_or_insert_with(Default::default).insert(h);
+		if fresh {
+			STAT_TRACES.fetch_add(1, Ordering::SeqCst);
+			if let Ok(td) = std::env::var("PDBLOOM_TRACES") {
+				let _ = std::fs::create_dir_all(&td);
+				let j = json!({"property": "C12", "engine": "loommc-trace", "scenario": name, "preemption_bound": pb, "schedule": it + 1, "salt": 3, "txs": txs,
+					"from": from, "lo_before": n, "lo_after_sync": n, "hi": n, "operations": ops[from..].iter().map(|o| o.short()).collect::<Vec<_>>(), "ops_hex": hex(&bytes)});
+				std::fs::write(format!("{}/{}-pb{}-{:016x}.json", td, name.replace('/', "_"), pb, h), serde_json::to_string(&j).unwrap()).unwrap();
+			}
+		}
 	}
 }
 
@@ -699,6 +808,12 @@ fn run_child(prop: &str, tier: &str, idx: usize) -> Outcome {
 		("C15", 7) if !quick => explore("workers/over-queue-limit", 2, wall, c15_scenario(&[100, 8], false)),
 		("C15", 8) if !quick => explore("workers/3-commits-mixed", 2, wall, c15_scenario(&[100, 600, 8], false)),
 		("C15", 9) if !quick => explore("workers/second-client", 2, wall, c15_scenario(&[100], true)),
+		("C12L", 0) => explore("backlog-2-files/commit+cleanup-workers", 2, wall.min(if quick { 30.0 } else { wall }), c12_backlog("backlog-2-files/commit+cleanup-workers", 2, 2, 0b1100, false)),
+		("C12L", 1) => explore("backlog-3-files/commit+cleanup-workers", 1, wall.min(if quick { 30.0 } else { wall }), c12_backlog("backlog-3-files/commit+cleanup-workers", 1, 3, 0b1100, true)),
+		("C12L", 2) => explore("backlog-3-files/all-workers", 1, wall.min(if quick { 30.0 } else { wall }), c12_backlog("backlog-3-files/all-workers", 1, 3, 0b1111, true)),
+		("C12L", 3) if !quick => explore("backlog-3-files/commit+cleanup-workers", 2, wall, c12_backlog("backlog-3-files/commit+cleanup-workers", 2, 3, 0b1100, true)),
+		("C12L", 4) if !quick => explore("backlog-4-files/commit+cleanup-workers", 2, wall, c12_backlog("backlog-4-files/commit+cleanup-workers", 2, 4, 0b1100, true)),
+		("C12L", 5) if !quick => explore("backlog-2-files/commit+cleanup-workers", 3, wall, c12_backlog("backlog-2-files/commit+cleanup-workers", 3, 2, 0b1100, false)),
 		("C11L", 0) => explore("reader+pruner+writer/one-pipeline-thread", 1, wall, c11_scenario(false)),
 		("C11L", 1) => explore("reader+pruner+writer/one-pipeline-thread", 2, wall, c11_scenario(false)),
 		("C11L", 2) => explore("reader+pruner+writer/split-pipeline", 1, wall, c11_scenario(true)),
@@ -730,20 +845,54 @@ fn main() {
 		std::panic::set_hook(Box::new(|_| {}));
 		let o = run_child(&prop, &tier, idx);
 		println!("{}", json!({"name": o.name, "pb": o.pb, "schedules": o.schedules, "complete": o.complete, "failure": o.failure, "secs": o.secs,
-			"schedules_where_workers_logged_everything_before_join": STAT_DRAINED.load(Ordering::SeqCst), "schedules_where_a_record_was_enacted_by_the_workers": STAT_ENACTED.load(Ordering::SeqCst)}));
+			"distinct_traces": STAT_TRACES.load(Ordering::SeqCst), "schedules_where_workers_logged_everything_before_join": STAT_DRAINED.load(Ordering::SeqCst), "schedules_where_a_record_was_enacted_by_the_workers": STAT_ENACTED.load(Ordering::SeqCst)}));
 		let _ = std::fs::remove_dir_all(scratch());
 		std::process::exit(0);
+	}
+	if prop == "replay" {
+		// re-run the scenario/bound pair of a stored loom counterexample: the exploration order is deterministic, so
+		// the same schedule fails again
+		let body = std::fs::read_to_string(&tier).unwrap_or_else(|e| {
+			println!("MACHINERY-ERROR: cannot read {}: {}", tier, e);
+			std::process::exit(2)
+		});
+		let j: serde_json::Value = serde_json::from_str(&body).unwrap_or(json!({}));
+		let (p, t, idx) = (j["check"].as_str().unwrap_or("").to_string(), j["tier"].as_str().unwrap_or("quick").to_string(), j["child_index"].as_u64().unwrap_or(999) as usize);
+		std::panic::set_hook(Box::new(|_| {}));
+		let o = run_child(&p, &t, idx);
+		let _ = std::fs::remove_dir_all(scratch());
+		match o.failure {
+			Some(f) => {
+				println!("replay: scenario {} preemption bound {}: schedule #{} fails: {}", o.name, o.pb, o.schedules, f);
+				println!("VIOLATION property={} replay={}", j["property"].as_str().unwrap_or("?"), tier);
+				std::process::exit(1)
+			},
+			None => {
+				println!("replay: scenario {} preemption bound {}: {} schedules explored ({}), no failure", o.name, o.pb, o.schedules, if o.complete { "complete" } else { "wall cap" });
+				std::process::exit(0)
+			},
+		}
 	}
 	let t0 = Instant::now();
 	let exe = std::env::current_exe().unwrap();
 	// "C11L" = the threaded part of C11: reported under property C11, evidence in C11-loom.json (the registered
 	// evidence file of C11 is written by the sequential part)
-	let report_prop = if prop == "C11L" { "C11".to_string() } else { prop.clone() };
-	let evidence_name = if prop == "C11L" { "C11-loom".to_string() } else { prop.clone() };
+	// "C12L" likewise: the threaded part of C12 (schedules explored here, their I/O traces judged by pdbmc)
+	let report_prop = match prop.as_str() {
+		"C11L" => "C11".to_string(),
+		"C12L" => "C12".to_string(),
+		_ => prop.clone(),
+	};
+	let evidence_name = match prop.as_str() {
+		"C11L" => "C11-loom".to_string(),
+		"C12L" => "C12-loom".to_string(),
+		_ => prop.clone(),
+	};
+	let traces_root = PathBuf::from(format!("{}/pdbloom-traces-{}", std::env::var("PDBMC_SCRATCH").unwrap_or_else(|_| "/dev/shm".into()), std::process::id()));
 	// all scenario/bound pairs in parallel, one process each
 	let mut children = vec![];
 	for idx in 0..26 {
-		let c = std::process::Command::new(&exe).args([&prop, &tier, "--child", &idx.to_string()]).stdout(std::process::Stdio::piped()).stderr(std::process::Stdio::null()).spawn().unwrap();
+		let c = std::process::Command::new(&exe).args([&prop, &tier, "--child", &idx.to_string()]).env("PDBLOOM_TRACES", traces_root.join(idx.to_string())).stdout(std::process::Stdio::piped()).stderr(std::process::Stdio::null()).spawn().unwrap();
 		children.push((idx, c));
 	}
 	let known: Vec<serde_json::Value> = std::fs::read_to_string(verif_root().join("known_findings.jsonl"))
@@ -797,13 +946,79 @@ fn main() {
 				let dir = out_root().join("replays");
 				let _ = std::fs::create_dir_all(&dir);
 				let path = dir.join(format!("{}-loom-{}-pb{}.json", report_prop, j["name"].as_str().unwrap().replace('/', "_"), j["pb"]));
-				std::fs::write(&path, serde_json::to_string_pretty(&json!({"property": report_prop, "engine": "loommc", "scenario": j["name"], "preemption_bound": j["pb"], "failed_at_schedule": j["schedules"], "message": f})).unwrap()).unwrap();
+				std::fs::write(&path, serde_json::to_string_pretty(&json!({"property": report_prop, "engine": "loommc", "scenario": j["name"], "preemption_bound": j["pb"], "failed_at_schedule": j["schedules"], "message": f, "check": prop, "tier": tier, "child_index": idx})).unwrap()).unwrap();
 				println!("VIOLATION property={} replay={}", report_prop, path.display());
 				println!("  {}", rendering);
 			}
 		}
 		parts.push(j);
 	}
+	// C12L: every distinct I/O trace is judged by the sequential engine (power loss at every operation boundary)
+	let mut trace_judgement = json!(null);
+	if prop == "C12L" {
+		let pdbmc = verif_root().join(".target/std/release/pdbmc");
+		let mut sum = json!({"traces": 0u64, "operations_in_threaded_phase": 0u64, "crash_points": 0u64, "images": 0u64, "distinct_images_recovered": 0u64, "power_loss_images": 0u64, "max_dirty_pages": 0u64, "subsets_capped": 0u64, "recovered_to": {}});
+		if let Ok(rd) = std::fs::read_dir(&traces_root) {
+			let mut dirs: Vec<PathBuf> = rd.filter_map(|e| e.ok()).map(|e| e.path()).collect();
+			dirs.sort();
+			for d in dirs {
+				let out = std::process::Command::new(&pdbmc).args(["judge-traces", &d.to_string_lossy()]).output();
+				let out = match out {
+					Ok(o) if o.status.success() => o,
+					Ok(o) => {
+						println!("MACHINERY-ERROR: judging traces failed: {}", String::from_utf8_lossy(&o.stdout).lines().last().unwrap_or(""));
+						std::process::exit(2)
+					},
+					Err(e) => {
+						println!("MACHINERY-ERROR: cannot run {}: {}", pdbmc.display(), e);
+						std::process::exit(2)
+					},
+				};
+				let j: serde_json::Value = String::from_utf8_lossy(&out.stdout).lines().last().and_then(|l| serde_json::from_str(l).ok()).unwrap_or(json!({}));
+				for (a, b) in [("traces", "traces"), ("operations_in_threaded_phase", "ops"), ("crash_points", "crash_points"), ("images", "images"), ("distinct_images_recovered", "distinct"), ("power_loss_images", "power_loss"), ("subsets_capped", "capped")] {
+					sum[a] = json!(sum[a].as_u64().unwrap() + j[b].as_u64().unwrap_or(0));
+				}
+				sum["max_dirty_pages"] = json!(sum["max_dirty_pages"].as_u64().unwrap().max(j["max_dirty"].as_u64().unwrap_or(0)));
+				if let Some(o) = j["recovered_to"].as_object() {
+					for (k, v) in o {
+						let cur = sum["recovered_to"][k].as_u64().unwrap_or(0);
+						sum["recovered_to"][k] = json!(cur + v.as_u64().unwrap_or(0));
+					}
+				}
+				for f in j["failures"].as_array().cloned().unwrap_or_default() {
+					let rendering = format!("{}: {}", f["kind"].as_str().unwrap_or("?"), f["msg"].as_str().unwrap_or("?"));
+					let k = known.iter().find(|k| {
+						k["property"] == report_prop.as_str() &&
+							k["status"].as_str().map_or(false, |s| s == "open") &&
+							k["signature"].as_array().map_or(false, |a| !a.is_empty() && a.iter().all(|s| rendering.contains(s.as_str().unwrap_or("\u{0}"))))
+					});
+					if let Some(k) = k {
+						let l = format!("KNOWN-FINDING: property={} {} [{}]", report_prop, k["what"].as_str().unwrap_or(""), k["id"].as_str().unwrap_or(""));
+						if !known_lines.contains(&l) {
+							println!("{}", l);
+							known_lines.push(l);
+						}
+						continue
+					}
+					violations += 1;
+					let dir = out_root().join("replays");
+					let _ = std::fs::create_dir_all(&dir);
+					let src = PathBuf::from(f["file"].as_str().unwrap_or(""));
+					let path = dir.join(format!("C12-loom-{}", src.file_name().map(|x| x.to_string_lossy().into_owned()).unwrap_or_default()));
+					let _ = std::fs::copy(&src, &path);
+					println!("VIOLATION property={} replay={}", report_prop, path.display());
+					println!("  {}", rendering.chars().take(600).collect::<String>());
+				}
+			}
+		}
+		println!("  traces judged: {} distinct operation sequences, {} crash points, {} power-loss images, {} distinct images recovered (recovered to {})", sum["traces"], sum["crash_points"], sum["power_loss_images"], sum["distinct_images_recovered"], sum["recovered_to"]);
+		if sum["traces"].as_u64() == Some(0) && violations == 0 {
+			println!("MACHINERY-ERROR: no trace was recorded");
+			std::process::exit(2)
+		}
+		trace_judgement = sum;
+	}
+	let _ = std::fs::remove_dir_all(&traces_root);
 	let ev = json!({
 		"property_id": report_prop, "tier": if tier == "thorough" { "thorough" } else { "quick" },
 		"seed": std::env::var("VERIF_SEED").ok().and_then(|s| s.parse::<i64>().ok()).unwrap_or(0),
@@ -812,7 +1027,7 @@ fn main() {
 			"states": total, "transitions": total, "traces_validated_against_impl": total,
 			"evaluations": total, "distinct_nontrivial": total,
 			"rule": "loom explores every interleaving of the scenario's threads at Mutex/RwLock/Condvar operations with at most the stated number of preemptions (DPOR); one schedule = one complete execution of the real code on a fresh database; states/transitions here count complete schedules (loom is stateless)",
-			"parts": parts, "exhaustive": exhaustive,
+			"parts": parts, "exhaustive": exhaustive, "io_traces_judged_for_power_loss": trace_judgement,
 			"samples": [{"scenario": "workers/2-small-commits", "threads": "log worker, flush worker, commit worker, cleanup worker (the crate's real loops), client: commit, commit, shutdown, join, drop, reopen, read back"}],
 			"known_findings_reported": known_lines,
 		},
